@@ -162,6 +162,15 @@ def _sp_new(name):
         return odl.ProductSpace(odl.rn(2), odl.rn(1), odl.rn(2), weighting=[1.0, 2.0, 0.5])
     if name == 'pw3':
         return odl.rn(2) ** 3
+    if name == 'pw5':
+        return odl.rn(2) ** 5
+    if name == 'pw_rn3_1w':
+        # a vector field with exactly ONE component and a weight != 1
+        return odl.ProductSpace(odl.rn(3), 1, weighting=[3.0])
+    if name == 'pw_rn3_1c':
+        return odl.ProductSpace(odl.rn(3), 1, weighting=0.5)
+    if name == 'pw_rn3_1':
+        return odl.ProductSpace(odl.rn(3), 1)
     if name == 'int3':
         return odl.tensor_space(3, dtype=int)
     return S.build(name)
@@ -229,6 +238,11 @@ def _leaf(name, sp):
     if name == 'PD':
         return odl.PartialDerivative(sp, axis=0, method='central', pad_mode='order1')
     raise KeyError(name)
+
+
+def _cp_index(i):
+    return {'slice': slice(0, 2), 'step2': slice(None, None, 2), 'step2from1': slice(1, None, 2),
+            'neg': slice(None, None, -2)}.get(i, i) if isinstance(i, str) else i
 
 
 def _psop(o):
@@ -521,19 +535,25 @@ SPECS = [
                             dict(dom='pw_rn3_2', p=3, w=[1.0, 2.0]), dict(dom='pw_cn2_2w'),
                             dict(dom='pw_rn2_3w'), dict(dom='pw_rn2_3w', w=[1.0, 1.0, 1.0]),
                             dict(dom='pw_rn2_3w', p=1.5, w=1.0), dict(dom='pw_rn2_2_c', w=1.0),
-                            dict(dom='pw_rn2_3w', p=3)],
+                            dict(dom='pw_rn2_3w', p=3), dict(dom='pw_rn3_1w'), dict(dom='pw_rn3_1w', p=1),
+                            dict(dom='pw_rn3_1w', p=3), dict(dom='pw_rn3_1w', p='inf'),
+                            dict(dom='pw_rn3_1c'), dict(dom='pw_rn3_1', w=[2.0]),
+                            dict(dom='pw_rn3_1', p=1.5, w=[2.0]), dict(dom='pw_rn3_1')],
           lambda o: odl.PointwiseNorm(_sp(o['dom']), exponent=None if 'p' not in o else float(o['p']),
                                       weighting=o.get('w')), dk='nonzero'),
     OSpec('PointwiseInner', [dict(dom='pw_rn3_2'), dict(dom='pw_rn3_2', w=[1.0, 2.0]),
                              dict(dom='pw_ud4_2'), dict(dom='pw_cn2_2w'), dict(dom='pw_rn2_3w'),
                              dict(dom='pw_rn2_3w', w=[1.0, 1.0, 1.0]), dict(dom='pw_rn2_3w', w=1.0),
                              dict(dom='pw_cn2_2w', w=[1.0, 1.0]), dict(dom='pw_rn2_3w', w=[2.0, 1.0, 0.5]),
-                             dict(dom='pw_rn2_2_c', w=1.0), dict(dom='pw_rn2_2_c')],
+                             dict(dom='pw_rn2_2_c', w=1.0), dict(dom='pw_rn2_2_c'),
+                             dict(dom='pw_rn3_1w'), dict(dom='pw_rn3_1c'), dict(dom='pw_rn3_1', w=[2.0]),
+                             dict(dom='pw_rn3_1'), dict(dom='pw_rn3_1w', w=[1.0])],
           lambda o: odl.PointwiseInner(_sp(o['dom']), el(_sp(o['dom']), 1), weighting=o.get('w'))),
     OSpec('PointwiseInnerAdjoint', [dict(dom='pw_rn3_2'), dict(dom='pw_rn3_2', w=[1.0, 2.0]),
                                     dict(dom='pw_cn2_2w'), dict(dom='pw_ud4_2'),
                                     dict(dom='pw_rn2_3w', w=[1.0, 1.0, 1.0]), dict(dom='pw_rn2_3w'),
-                                    dict(dom='pw_rn2_2_c', w=1.0)],
+                                    dict(dom='pw_rn2_2_c', w=1.0), dict(dom='pw_rn3_1w'),
+                                    dict(dom='pw_rn3_1', w=[2.0]), dict(dom='pw_rn3_1c')],
           lambda o: odl.PointwiseInner(_sp(o['dom']), el(_sp(o['dom']), 1),
                                        weighting=o.get('w')).adjoint),
     OSpec('PointwiseSum', [dict(dom='pw_rn3_2'), dict(dom='pw_rn3_2', w=[1.0, 2.0]),
@@ -590,13 +610,16 @@ SPECS = [
     OSpec('ComponentProjection', [dict(dom='pr3', i=0), dict(dom='pr3', i=1), dict(dom='pr3', i=[0, 2]),
                                   dict(dom='pw3', i='slice'), dict(dom='pr3w', i=0),
                                   dict(dom='pr3w', i=[0, 2]), dict(dom='pw_rn2_3w', i='slice'),
-                                  dict(dom='pw_rn2_3w', i=2)],
-          lambda o: odl.ComponentProjection(_sp(o['dom']), slice(0, 2) if o['i'] == 'slice'
-                                            else o['i'])),
+                                  dict(dom='pw_rn2_3w', i=2), dict(dom='pw5', i='step2'),
+                                  dict(dom='pw5', i='step2from1'), dict(dom='pw5', i='neg'),
+                                  dict(dom='pw5', i=[3, 0]), dict(dom='pw5', i=-1)],
+          lambda o: odl.ComponentProjection(_sp(o['dom']), _cp_index(o['i']))),
     OSpec('ComponentProjectionAdjoint', [dict(dom='pr3', i=0), dict(dom='pr3', i=[0, 2]),
-                                         dict(dom='pw3', i='slice'), dict(dom='pr3w', i=1)],
-          lambda o: odl.ComponentProjectionAdjoint(_sp(o['dom']), slice(0, 2) if o['i'] == 'slice'
-                                                   else o['i'])),
+                                         dict(dom='pw3', i='slice'), dict(dom='pr3w', i=1),
+                                         dict(dom='pw5', i='step2'), dict(dom='pw5', i='step2from1'),
+                                         dict(dom='pw5', i='neg'), dict(dom='pw5', i=[3, 0]),
+                                         dict(dom='pw5', i=-1)],
+          lambda o: odl.ComponentProjectionAdjoint(_sp(o['dom']), _cp_index(o['i']))),
     OSpec('BroadcastOperator', [dict(ops=['I', 'M']), dict(ops=['A', 'S2', 'M']), dict(ops=['P2', 'sin']),
                                 dict(ops=['Ac', 'M'], space='cn2'), dict(ops=['I', 'M'], space='ud2'),
                                 dict(ops=['Aff', 'M']), dict(ops=['P2', 2]), dict(ops=['sin', 3])],
@@ -625,7 +648,10 @@ SPECS = [
     OSpec('Divergence', _GD, lambda o: _gradop(o, odl.Divergence)),
     OSpec('Laplacian', [dict(), dict(pad_mode='symmetric'), dict(pad_mode='periodic'),
                         dict(pad_mode='order0'), dict(pad_mode='constant', pad_const=1.5),
-                        dict(dom='ud4'), dict(dom='ud23b')],
+                        dict(dom='ud4'), dict(dom='ud23b'),
+                        # rejected by the constructor on the pinned tree (unbuildable = skipped)
+                        dict(pad_mode='order1', rejected=1), dict(pad_mode='order2', rejected=1),
+                        dict(dom='ud4', pad_mode='order1', rejected=1)],
           lambda o: _gradop(o, odl.Laplacian)),
     OSpec('ResizingOperator', [dict(), dict(pad_mode='symmetric'), dict(pad_mode='periodic'),
                                dict(pad_mode='order0'), dict(pad_mode='order1'),
@@ -796,6 +822,54 @@ SPECS.append(OSpec('QuadraticForm',
                    lambda o: odl.solvers.QuadraticForm(
                        None if o['A'] is None else _leaf(o['A'], _sp(o['space'])),
                        el(_sp(o['space']), 1) if o['vec'] else None, 0.5)))
+
+# gradient operators of functionals as operators X -> X: C03 checks their call protocol, C06 their
+# derivative (the Hessian) where one is implemented
+def _gradient_of(o):
+    sp = _sp(o.get('space', 'rn3'))
+    S_ = odl.solvers
+    k = o['f']
+    if k == 'l2sq':
+        f = S_.L2NormSquared(sp)
+    elif k == 'l2sq_tr':
+        f = S_.L2NormSquared(sp).translated(el(sp, 1))
+    elif k == 'quad':
+        f = S_.QuadraticForm(_leaf('A', sp), el(sp, 1), 0.5)
+    elif k == 'kl':
+        f = S_.KullbackLeibler(sp, prior=el(sp, 0, 'pos'))
+    elif k == 'huber':
+        f = S_.Huber(sp, 0.7)
+    elif k == 'l2':
+        f = S_.L2Norm(sp)
+    elif k == 'comp_lin':
+        f = S_.L2NormSquared(sp) * _leaf('A', sp)
+    elif k == 'comp_aff':
+        f = S_.L2NormSquared(sp) * _leaf('Aff', sp)
+    elif k == 'comp_nl':
+        f = S_.L2NormSquared(sp) * _leaf('P2', sp)
+    elif k == 'comp_nl2':
+        f = S_.L2NormSquared(sp).translated(el(sp, 1)) * _leaf('sin', sp)
+    elif k == 'sum':
+        f = S_.L2NormSquared(sp) + S_.QuadraticForm(_leaf('A', sp), el(sp, 1), 0.5)
+    elif k == 'leftscal':
+        f = 3.0 * S_.L2NormSquared(sp)
+    elif k == 'rightscal':
+        f = S_.L2NormSquared(sp) * 2.0
+    elif k == 'quadpert':
+        f = S_.FunctionalQuadraticPerturb(S_.L2NormSquared(sp), 1.5, el(sp, 2), 0.5)
+    elif k == 'rosen':
+        f = S_.RosenbrockFunctional(sp, scale=2.0)
+    else:
+        raise KeyError(k)
+    return f.gradient
+
+
+SPECS.append(OSpec('gradient-operator',
+                   [dict(f=k, space=s) for k in ('l2sq', 'l2sq_tr', 'quad', 'kl', 'huber', 'l2',
+                                                 'comp_lin', 'comp_aff', 'comp_nl', 'comp_nl2', 'sum',
+                                                 'leftscal', 'rightscal', 'quadpert', 'rosen')
+                    for s in ('rn3', 'ud3')],
+                   _gradient_of, dk='pos', cls='gradient'))
 
 BY_NAME = dict((s.name, s) for s in SPECS)
 
